@@ -8,6 +8,7 @@ import (
 	"runtime"
 	"time"
 
+	"github.com/PowerDNS/lightningstream/utils/verifhook"
 	"github.com/c2h5oh/datasize"
 	"github.com/sirupsen/logrus"
 )
@@ -21,6 +22,7 @@ func SleepContext(ctx context.Context, d time.Duration) error {
 	case <-ctx.Done():
 		return context.Canceled
 	case <-t.C:
+		verifhook.Yield(ctx, "sleep:wake")
 		return nil
 	}
 }
